@@ -72,6 +72,7 @@ type propRun struct {
 	assumed    map[string]bool
 	warnings   []string
 	genSecs    float64
+	coversUndecided []string
 }
 
 func runProperty(e *Engine, opts Options, prop string) *propRun {
@@ -175,12 +176,18 @@ func CmdCheck(opts Options, prop string) int {
 	nObl, nProved := 0, 0
 	solverTime := 0.0
 	seen := map[string]bool{}
+	var coversUndecided []string
 	var per []map[string]interface{}
 	for _, d := range pr.discharged {
 		seen[d.O.Name] = true
 		solverTime += d.V.Seconds
 		if k, ok := openKnown[d.O.Name]; ok && d.V.Status != "proved" {
 			knownHit = append(knownHit, k)
+			continue
+		}
+		if d.O.Cover && d.V.Status == "undecided" {
+			// a reachability (vacuity) query the solvers could not answer either way: recorded, not a failure
+			coversUndecided = append(coversUndecided, d.O.Name)
 			continue
 		}
 		nObl++
@@ -264,6 +271,7 @@ func CmdCheck(opts Options, prop string) int {
 		fmt.Println("ENGINE-ERROR: no obligations generated for", prop)
 		rc = 2
 	}
+	pr.coversUndecided = coversUndecided
 	writeEvidence(e, opts, prop, pr, per, nObl, nProved, knownHit, violations, solverTime, seed, time.Since(t0).Seconds())
 	fmt.Printf("%s: %d obligations, %d proved, %d known findings, %d violations, %.1fs (load+vcgen %.1fs, solver cpu %.1fs)\n",
 		prop, nObl, nProved, len(knownHit), violations, time.Since(t0).Seconds(), pr.genSecs, solverTime)
@@ -368,6 +376,7 @@ func writeEvidence(e *Engine, opts Options, prop string, pr *propRun, per []map[
 			"solver_time_s":            round3(solverTime),
 			"vcgen_time_s":             round3(pr.genSecs),
 			"known_finding_obligations": kf,
+			"vacuity_covers_undecided":  pr.coversUndecided,
 			"explanation":              "every obligation is a verification condition generated from the go/ssa form of /repo's current working tree and the //@ contracts in its zz_verif_contracts.go files, discharged by an SMT solver (unsat = proved)",
 		},
 		"assumptions": assumptions,
